@@ -76,6 +76,21 @@ def mixed_int(lo, hi, edge_share=3):
         lambda k: st.integers(lo, hi) if k < edge_share else uniform_int(lo, hi))
 
 
+_LEAPS = {}
+
+
+def _leap_table():
+    """(mjd, TAI-UTC) pairs of the repository's tai-utc.dat (read once; [] if unavailable)."""
+    if "t" not in _LEAPS:
+        try:
+            from .. import env
+
+            _LEAPS["t"] = list(iers.tables(env.repo()).leaps)
+        except Exception:
+            _LEAPS["t"] = []
+    return _LEAPS["t"]
+
+
 @st.composite
 def instants(draw, leap_days, lo_mjd=LO_MJD, hi_mjd=HI_MJD, boundary_bias=True):
     lo = (lo_mjd - iers.BASE_MJD) * US_DAY
@@ -89,6 +104,12 @@ def instants(draw, leap_days, lo_mjd=LO_MJD, hi_mjd=HI_MJD, boundary_bias=True):
     elif kind < 19:
         day = EQUINOX_SWITCH_MJD if lo_mjd < EQUINOX_SWITCH_MJD < hi_mjd else lo_mjd + 1
         us = (day - iers.BASE_MJD) * US_DAY + draw(mixed_int(-90 * US, 90 * US, 4))
+    elif draw(st.integers(0, 2)) == 0:
+        # the instant at which ANOTHER scale reads exactly 0h (TAI, TT, GPS midnight): ties of the day-indexed lookups
+        day = draw(uniform_int(lo_mjd + 1, hi_mjd - 1))
+        tai_utc = max([10] + [int(v) for m, v in _leap_table() if m <= day]) if _leap_table() else 30
+        off = draw(st.sampled_from([tai_utc * US, tai_utc * US + 32184000, (tai_utc - 19) * US]))
+        us = (day - iers.BASE_MJD) * US_DAY - off + draw(st.sampled_from([0, 0, 1, -1]))
     elif draw(st.booleans()):
         us = draw(uniform_int(lo // (3600 * US), hi // (3600 * US))) * 3600 * US
     else:
